@@ -46,6 +46,9 @@ CONSTANTS
   RawLen,     \* raw strings up to this length
   Depths,     \* depths of the deep-nesting gadgets
   Ladders,    \* heights of the import-ladder gadgets
+  MacroCloses, \* repetitions of the "macro declaration closes a block on its line" gadget
+  SnipDeeps,  \* depths of the "deep snippet imported deep inside blocks" gadgets
+  FileChains, \* 1000*k + d: chains of k+1 files, each nesting the next import inside d blocks
   Devs        \* deviations of the code the rule takes into account (as-is model)
 
 VARIABLES layer, doc, style, mut, raw
@@ -53,6 +56,10 @@ vars == <<layer, doc, style, mut, raw>>
 
 NestLimit == 256      \* "Level of nesting is limited" - deepest accepted block depth
 ExpLimit  == 255      \* import expansion depth limit
+\* Bound on the nesting of a returned tree when imports are involved: an import is only
+\* expanded at most ExpLimit blocks deep and what it splices in was itself parsed under
+\* NestLimit, so no tree can be deeper than the sum of the two limits.
+ImportDepthBound == 2 * NestLimit
 LadderMax == 16       \* ladders up to this height must expand (2^16 nodes); higher: any
 \* VERIF_UNSET is not set; VERIF_BSNL holds a backslash directly followed by a newline
 EnvTable  == [VERIF_SET |-> "ENVVAL", VERIF_BSNL |-> "x\\\ny"]
@@ -103,6 +110,12 @@ BD           == B("a", <<P("x")>>, <<D("b", <<P("y")>>), D("c", <<>>)>>)
 RECURSIVE DeepItem(_)
 DeepItem(d) == IF d <= 1 THEN B("a", <<>>, <<D("c", <<P("z")>>)>>)
                ELSE B("a", <<>>, <<DeepItem(d - 1)>>)
+RECURSIVE DeepWrap(_, _)
+DeepWrap(d, inner) == IF d = 0 THEN inner ELSE B("a", <<>>, <<DeepWrap(d - 1, inner)>>)
+(* a block whose only child, a macro declaration, carries the closing brace on its line *)
+MacroCloseItem == Brk(B("x", <<>>, <<M("m", <<P("1"), P("2")>>)>>), "sameclose")
+(* a snippet d blocks deep, imported d blocks deep                                      *)
+SnipDeepItems(d) == <<S("s", <<DeepWrap(d, D("c", <<P("z")>>))>>), DeepWrap(d, I("s"))>>
 LName(i) == "l" \o ToString(i)
 LadderItems(h) ==
   <<S(LName(0), <<D("c", <<>>)>>)>> \o
@@ -130,6 +143,18 @@ FixedPool ==
     \* an argument list / before a block although no source line was written that way
     E_bsnl_args |-> <<D("a", <<EnvA("", "VERIF_BSNL", ""), P("b")>>), D("c", <<P("d")>>)>>,
     E_bsnl_blk  |-> <<B("a", <<EnvA("", "VERIF_BSNL", "")>>, <<D("b", <<EnvA("", "VERIF_BSNL", "")>>)>>), D("c", <<P("d")>>)>>,
+    \* environment placeholders (set and unset) inside snippet bodies, in macro values used
+    \* inside snippets, in block headers and in nested blocks
+    S_env_imp   |-> <<S("s", <<D("b", <<EnvA("p/", "VERIF_SET", "/q"), EnvA("", "VERIF_UNSET", "")>>),
+                               B("c", <<EnvA("", "VERIF_SET", "")>>, <<D("b", <<EnvA("x", "VERIF_UNSET", "y")>>)>>)>>),
+                      I("s")>>,
+    S_env       |-> <<S("s", <<D("b", <<EnvA("", "VERIF_SET", ""), [q |-> "dq", f |-> <<LitQ("p ", "p "), Env("VERIF_UNSET")>>]>>)>>)>>,
+    S_env_macro |-> <<M("m", <<EnvA("", "VERIF_SET", ""), EnvA("u", "VERIF_UNSET", "")>>),
+                      M("n", <<EnvA("k", "VERIF_SET", "")>>),
+                      S("t", <<B("b", <<MRef("m")>>, <<D("c", <<MEmb("p/", "n", "/q")>>)>>)>>),
+                      B("a", <<>>, <<I("t")>>)>>,
+    E_blockhdr  |-> <<B("a", <<EnvA("", "VERIF_SET", ""), EnvA("", "VERIF_UNSET", "")>>,
+                        <<B("b", <<EnvA("h", "VERIF_SET", "")>>, <<D("c", <<EnvA("", "VERIF_SET", ""), EnvA("x", "VERIF_UNSET", "")>>)>>)>>)>>,
     D_hashquote |-> <<D("a", <<Q("x#y {", "x#y {"), P("z")>>)>>,
     D_emptyarg  |-> <<D("a", <<Q("", ""), P("x")>>)>>,
     D_names     |-> <<D("a.b-c_d", <<>>), D("_a1", <<P("1")>>)>>,
@@ -184,10 +209,17 @@ FixedPool ==
 
 DeepName(d)   == "X_deep" \o ToString(d)
 LadderName(h) == "X_ladder" \o ToString(h)
+MCloseName(n) == "X_mclose" \o ToString(n)
+SnipDeepName(d) == "X_snipdeep" \o ToString(d)
 GadgetNames == DOMAIN FixedPool \cup {DeepName(d) : d \in Depths} \cup {LadderName(h) : h \in Ladders}
+               \cup {MCloseName(n) : n \in MacroCloses} \cup {SnipDeepName(d) : d \in SnipDeeps}
 Gadget(g) ==
   IF g \in DOMAIN FixedPool THEN FixedPool[g]
   ELSE IF \E d \in Depths : g = DeepName(d) THEN <<DeepItem(CHOOSE d \in Depths : g = DeepName(d))>>
+  ELSE IF \E n \in MacroCloses : g = MCloseName(n)
+       THEN [i \in 1..(CHOOSE n \in MacroCloses : g = MCloseName(n)) |-> MacroCloseItem]
+  ELSE IF \E d \in SnipDeeps : g = SnipDeepName(d)
+       THEN SnipDeepItems(CHOOSE d \in SnipDeeps : g = SnipDeepName(d))
   ELSE LadderItems(CHOOSE h \in Ladders : g = LadderName(h))
 ItemsOf(dc) == FlattenSeq([i \in 1..Len(dc) |-> Gadget(dc[i])])
 
@@ -230,8 +262,9 @@ RECURSIVE Line(_, _, _)
 (* the pieces of one item without its final line terminator                  *)
 Line(it, st, d) ==
   LET n       == Len(it.c)
-      sameOK  == "same" \in st /\ it.brk = "none" /\ n > 0 /\ ~it.c[n].blk /\ it.c[n].brk = "none"
-                 /\ it.c[n].k = "dir"
+      sameOK  == \/ it.brk = "sameclose" /\ n > 0
+                 \/ "same" \in st /\ it.brk = "none" /\ n > 0 /\ ~it.c[n].blk /\ it.c[n].brk = "none"
+                    /\ it.c[n].k = "dir"
       child(i) == Ind(st, d + 1) \o Line(it.c[i], st, d + 1) \o
                   (IF sameOK /\ i = n THEN <<" ">> ELSE Term(st))
       open    == IF it.brk = "extraopen" THEN <<"{", " ", "{">> ELSE <<"{">>
@@ -369,7 +402,23 @@ CountBrk(items, set) ==
 DevClass(d) == CASE d = "SelfImportDoubling" -> {"oom", "timeout"}
                  [] d = "ImportLadder"       -> {"oom", "timeout"}
                  [] d = "EmptyMacroEmbed"    -> {"panic"}
+                 [] d = "MacroCloseNesting"  -> {"tree"}
+                 [] d = "DeepImportTree"     -> {"tree"}
                  [] OTHER -> {}
+HardDevs == {"SelfImportDoubling", "ImportLadder", "EmptyMacroEmbed"}   \* these fix the outcome class
+
+RECURSIVE NodesDepth(_)
+NodesDepth(nodes) ==
+  IF nodes = <<>> THEN 0
+  ELSE LET h  == Head(nodes)
+           dh == IF h.b THEN 1 + NodesDepth(h.c) ELSE 0
+           dt == NodesDepth(Tail(nodes))
+       IN  IF dh > dt THEN dh ELSE dt
+RECURSIVE HasMacroClose(_)
+HasMacroClose(items) ==
+  \E i \in 1..Len(items) :
+     \/ items[i].brk = "sameclose" /\ items[i].c # <<>> /\ items[i].c[Len(items[i].c)].k = "macro"
+     \/ HasMacroClose(items[i].c)
 
 RECURSIVE HasImportItem(_)
 HasImportItem(items) ==
@@ -393,6 +442,8 @@ Analyse(dc) ==
        dbl |-> ~rd.err /\ Doubling(rd.out, rd.sn),
        err |-> nbad > 0 \/ tooDeep \/ rd.err \/ imp.err,
        out |-> imp.out,
+       outDepth |-> NodesDepth(imp.out),
+       mclose |-> HasMacroClose(items),
        imports |-> HasImportItem(items)]
 
 (* Classify(an, enabled): [class, tree, devs]                                 *)
@@ -400,20 +451,28 @@ Analyse(dc) ==
 (*   class "any": the documentation does not fix the outcome                  *)
 (*   devs: the enabled deviations this document can trigger                   *)
 Classify(an, enabled) ==
-  LET devs == ((an.rdDev \cup (IF an.dbl THEN {"SelfImportDoubling"} ELSE {})
-                \cup (IF an.bigLadder THEN {"ImportLadder"} ELSE {})) \cap enabled)
+  LET deep == an.outDepth > NestLimit      \* only reachable through imports
+      devs == ((an.rdDev \cup (IF an.dbl THEN {"SelfImportDoubling"} ELSE {})
+                \cup (IF an.bigLadder THEN {"ImportLadder"} ELSE {})
+                \cup (IF an.mclose THEN {"MacroCloseNesting"} ELSE {})
+                \cup (IF deep THEN {"DeepImportTree"} ELSE {})) \cap enabled)
+      hard == devs \cap HardDevs
       cls  == IF an.unterm \/ an.nbad > 1 THEN "any"
-              ELSE IF devs # {} THEN
-                     (IF an.nbad > 0 \/ an.tooDeep \/ Cardinality(devs) > 1 \/ (an.rdDev = {} /\ an.unknown)
+              ELSE IF hard # {} THEN
+                     (IF an.nbad > 0 \/ an.tooDeep \/ Cardinality(hard) > 1 \/ (an.rdDev = {} /\ an.unknown)
                       THEN "any"
-                      ELSE CHOOSE c \in DevClass(CHOOSE d \in devs : TRUE) : c # "timeout")
+                      ELSE CHOOSE c \in DevClass(CHOOSE d \in hard : TRUE) : c # "timeout")
               ELSE IF an.bigLadder /\ an.nbad = 0 /\ ~an.tooDeep THEN "any"
+              ELSE IF "MacroCloseNesting" \in devs THEN "any"
+              \* the documentation does not say whether the nesting limit applies to what
+              \* imports put together
+              ELSE IF deep THEN "any"
               ELSE IF an.err THEN "error" ELSE "tree"
   IN  [class |-> cls, tree |-> IF cls = "tree" THEN Resolve(an.out) ELSE <<>>, devs |-> devs]
 
 ExpectedD(dc, enabled) == Classify(Analyse(dc), enabled)
 Expected(dc) == ExpectedD(dc, Devs)
-AllDevs == {"SelfImportDoubling", "ImportLadder", "EmptyMacroEmbed"}
+AllDevs == {"SelfImportDoubling", "ImportLadder", "EmptyMacroEmbed", "MacroCloseNesting", "DeepImportTree"}
 
 -----------------------------------------------------------------------------
 (* Facts of an abstract tree, as the harness reports them for the real tree  *)
@@ -442,15 +501,17 @@ ModelShape(n) ==
 WFShape(s) == s.first \in {"L", "P"} /\ ToSet(s.all) \subseteq {"L", "D", "P"}
 
 DepthBound(in) ==
-  IF in.layer \in {"s", "m"} /\ in.imports THEN NestLimit * (ExpLimit + 2) ELSE NestLimit
+  IF in.layer \in {"s", "m", "i"} /\ in.imports THEN ImportDepthBound ELSE NestLimit
 
 IsTree(out) == out.class = "tree"
 P_Terminates(in, out) == out.class # "timeout"
 P_NoCrash(in, out)    == out.class # "panic"
-P_NoExhaust(in, out)  == out.class # "oom"
-P_Outcome(in, out)    == out.class \in {"error", "tree", "panic", "timeout", "oom"}
+P_NoExhaust(in, out)  == out.class \notin {"oom", "nofile"}     \* memory / file descriptors
+P_Outcome(in, out)    == out.class \in {"error", "tree", "panic", "timeout", "oom", "nofile"}
 P_Expanded(in, out)   == IsTree(out) =>
                            out.imports = 0 /\ out.snips = 0 /\ out.macros = 0 /\ out.macroArgs = 0
+\* "{env:NAME}" is replaced by the value of NAME, by nothing when NAME is not set
+P_NoPlaceholderLeft(in, out) == IsTree(out) => out.envLeft = 0
 P_Names(in, out)      == IsTree(out) => \A i \in 1..Len(out.shapes) : WFShape(out.shapes[i])
 P_Nesting(in, out)    == IsTree(out) => out.depth <= DepthBound(in)
 P_RoundTrip(in, out)  == IsTree(out) /\ out.expressible =>
@@ -458,13 +519,14 @@ P_RoundTrip(in, out)  == IsTree(out) /\ out.expressible =>
 P_Shipped(in, out)    == in.layer = "f" => IsTree(out) /\ out.pipelinesOk
 
 Viol(in, out) ==
-  {p \in {"Terminates", "NoCrash", "NoExhaust", "Outcome", "Expanded", "Names", "Nesting",
-          "RoundTrip", "Shipped"} :
+  {p \in {"Terminates", "NoCrash", "NoExhaust", "Outcome", "Expanded", "NoPlaceholderLeft", "Names",
+          "Nesting", "RoundTrip", "Shipped"} :
      ~ CASE p = "Terminates" -> P_Terminates(in, out)
          [] p = "NoCrash"    -> P_NoCrash(in, out)
          [] p = "NoExhaust"  -> P_NoExhaust(in, out)
          [] p = "Outcome"    -> P_Outcome(in, out)
          [] p = "Expanded"   -> P_Expanded(in, out)
+         [] p = "NoPlaceholderLeft" -> P_NoPlaceholderLeft(in, out)
          [] p = "Names"      -> P_Names(in, out)
          [] p = "Nesting"    -> P_Nesting(in, out)
          [] p = "RoundTrip"  -> P_RoundTrip(in, out)
@@ -476,12 +538,56 @@ RuleOut(ex) ==
   LET names == TreeNames(ex.tree) IN
   [class |-> ex.class, tree |-> Flat(ex.tree, 0),
    imports |-> Cardinality({n \in names : n = "import"}), snips |-> 0, macros |-> 0, macroArgs |-> 0,
+   envLeft |-> 0,
    shapes |-> SetToSeq({ModelShape(n) : n \in names}),
    depth |-> TreeDepth(ex.tree), expressible |-> TRUE,
    rt |-> [class |-> "tree", tree |-> Flat(ex.tree, 0)], pipelinesOk |-> TRUE]
 
 -----------------------------------------------------------------------------
 (* Enumeration                                                                *)
+(* Layer "i": imports of files.  A scenario is a small set of files written by the     *)
+(* harness into an empty directory; the first one is parsed.                            *)
+FileScenarios ==
+  {[kind |-> kd, k |-> 0, d |-> 0] : kd \in {"self", "cycle2", "cycle3", "plain"}} \cup
+  {[kind |-> "chain", k |-> c \div 1000, d |-> c % 1000] : c \in FileChains}
+ChainName(j) == IF j = 0 THEN "x.conf" ELSE "f" \o ToString(j) \o ".conf"
+Leaf == D("c", <<P("z")>>)
+FilesOf(sc) ==
+  CASE sc.kind = "self"   -> <<[name |-> "x.conf", items |-> <<D("a", <<>>), I("x.conf")>>]>>
+    [] sc.kind = "cycle2" -> <<[name |-> "x.conf", items |-> <<B("a", <<>>, <<I("fa.conf")>>)>>],
+                               [name |-> "fa.conf", items |-> <<D("b", <<>>), I("fb")>>],       \* "fb" -> fb.conf
+                               [name |-> "fb.conf", items |-> <<I("fa.conf")>>]>>
+    [] sc.kind = "cycle3" -> <<[name |-> "x.conf", items |-> <<I("fa.conf")>>],
+                               [name |-> "fa.conf", items |-> <<B("b", <<>>, <<I("fb.conf")>>)>>],
+                               [name |-> "fb.conf", items |-> <<I("fc.conf"), D("c", <<>>)>>],
+                               [name |-> "fc.conf", items |-> <<I("fa.conf")>>]>>
+    [] sc.kind = "plain"  -> <<[name |-> "x.conf", items |-> <<I("inc.conf"), B("a", <<>>, <<I("s")>>)>>],
+                               [name |-> "inc.conf", items |-> <<D("b", <<P("y")>>), S("s", <<Leaf>>)>>]>>
+    [] OTHER -> [j \in 1..(sc.k + 1) |->
+                   [name |-> ChainName(j - 1),
+                    items |-> <<DeepWrap(sc.d, IF j <= sc.k THEN I(ChainName(j)) ELSE Leaf)>>]]
+FilePieces(sc) == [j \in 1..Len(FilesOf(sc)) |->
+                     [name |-> FilesOf(sc)[j].name, pieces |-> Pieces(FilesOf(sc)[j].items, {})]]
+LeafNode == [n |-> "c", a |-> <<"z">>, b |-> FALSE, c |-> <<>>]
+RECURSIVE DeepNodes(_, _)
+DeepNodes(d, inner) == IF d = 0 THEN inner ELSE [n |-> "a", a |-> <<>>, b |-> TRUE, c |-> <<DeepNodes(d - 1, inner)>>]
+(* documented outcome: importing a file works like importing a snippet; cycles end in   *)
+(* the expansion-limit error; nesting is bounded                                         *)
+FileExpected(sc, enabled) ==
+  LET total == (sc.k + 1) * sc.d IN
+  CASE sc.kind \in {"self", "cycle2", "cycle3"} -> [class |-> "error", tree |-> <<>>, devs |-> {}]
+    [] sc.kind = "plain" ->
+         [class |-> "tree", devs |-> {},
+          tree |-> <<[n |-> "b", a |-> <<"y">>, b |-> FALSE, c |-> <<>>],
+                     [n |-> "a", a |-> <<>>, b |-> TRUE, c |-> <<LeafNode>>]>>]
+    [] OTHER ->
+         IF total <= NestLimit THEN [class |-> "tree", tree |-> <<DeepNodes(total, LeafNode)>>, devs |-> {}]
+         ELSE IF total > ImportDepthBound THEN [class |-> "error", tree |-> <<>>, devs |-> {}]
+         ELSE [class |-> "any", tree |-> <<>>, devs |-> {"DeepImportTree"} \cap enabled]
+RowFile(sc) ==
+  [layer |-> "i", scen |-> sc, files |-> FilePieces(sc), env |-> EnvTable, imports |-> TRUE,
+   exp |-> FileExpected(sc, {}).class, xdev |-> SetToSeq(FileExpected(sc, AllDevs).devs)]
+
 StyleSeq(st) == SetToSeq(st)
 RowDoc(an) ==
   [layer |-> IF mut.op = "none" THEN "s" ELSE "m", doc |-> doc, style |-> StyleSeq(style),
@@ -492,6 +598,7 @@ RowDoc(an) ==
 RowIn ==
   CASE layer = "r" -> [layer |-> "r", cls |-> raw, bytes |-> RawBytes(raw)]
     [] layer = "f" -> [layer |-> "f", path |-> doc[1].path, env |-> doc[1].env]
+    [] layer = "i" -> RowFile(doc[1])
     [] OTHER -> RowDoc(Analyse(doc))
 
 EmitRow(r) == PrintT(<<"ROW", ToJson(r)>>)
@@ -513,7 +620,7 @@ ModelRoundTrip(ex) ==
 (* One invariant per purpose so that a failure names what failed; they share  *)
 (* nothing, so the configs that only enumerate use EmitRows alone, and the    *)
 (* exhaustive design check uses RowAndModel (one analysis per state).         *)
-RowState == ~(layer = "s" /\ doc = <<>>)
+RowState == ~(layer \in {"s", "i"} /\ doc = <<>>)
 EmitRows == RowState => EmitRow(RowIn)
 ModelHolds ==
   layer = "s" /\ mut.op = "none" /\ doc # <<>> =>
@@ -531,11 +638,16 @@ RowAndModel ==
 
 IsSolo(g) == g \notin DOMAIN FixedPool       \* deep / ladder gadgets form one-gadget documents
 InitDoc ==
-  /\ layer \in {"s", "f"}
+  /\ layer \in {"s", "f", "i"}
   /\ IF layer = "f" THEN doc \in {<<f>> : f \in ShippedFiles} /\ style = {}
+     ELSE IF layer = "i" THEN doc = <<>> /\ style = {}   \* scenarios are successors (worker-thread stack)
      ELSE doc = <<>> /\ style \in Styles
   /\ mut = NoMut /\ raw = <<>>
-NextDoc ==
+NextFile ==
+  /\ layer = "i" /\ doc = <<>>
+  /\ \E sc \in FileScenarios : doc' = <<sc>>
+  /\ UNCHANGED <<layer, style, mut, raw>>
+NextGadget ==
   /\ layer = "s" /\ mut.op = "none"
   /\ \/ /\ Len(doc) < MaxItems
         /\ \E g \in GadgetNames :
@@ -548,6 +660,7 @@ NextDoc ==
         /\ \E m \in MutsOf(Pieces(ItemsOf(doc), style)) : mut' = m
         /\ layer' = "m"
         /\ UNCHANGED <<doc, style, raw>>
+NextDoc == NextFile \/ NextGadget
 SpecDoc == InitDoc /\ [][NextDoc]_vars
 
 InitRaw == layer = "r" /\ raw = <<>> /\ doc = <<>> /\ style = {} /\ mut = NoMut
